@@ -1,0 +1,7 @@
+//go:build verif
+
+package ast
+
+// VerifSetExpandedPrint makes String print composite literals completely
+// instead of "T{...}". Compiled only with the build tag "verif".
+func VerifSetExpandedPrint(on bool) { expandedPrint = on }
